@@ -18,12 +18,18 @@ CLAIMED = {
  'C05': dict(
   text="Operator-level proof: widening of interval / sign / constant / boolean / small_range (and congruence, wrapped_interval, interval with thresholds where enabled) is an upper bound of both arguments, is stationary when the argument is included, and otherwise strictly increases a rank bounded by a constant (interval: number of infinite bounds <= 2), so every widening chain is stationary after finitely many strict steps; narrowing of a decreasing pair keeps every element of its second argument; the separate_domain widening/narrowing operation objects drop/keep bindings as required; (unit fixpo, where enabled) the iterator's extrapolate() applies widening exactly when iteration > widening_delay. Engine-level termination of whole analyses is NOT decided: it is reduced on paper to these operator facts plus the unverified WTO/iterator loop structure.",
   note=TRUST + "'bounded strictly increasing rank => stationary' is an arithmetic step stated, not machine-checked; graph-domain, powerset, term-domain widenings and inter-procedural recursion widening are not covered."),
+ 'C06': dict(
+  text="Second sentence of the property only: proof that interleaved_fwd_fixpoint_iterator::extrapolate returns exactly the JOIN of its arguments (one application, nothing else) while iteration <= widening_delay, and otherwise the widening (or the widening with the thresholds of that loop head when thresholds are enabled), and that refine() applies the meet in the first descending iteration and the narrowing afterwards; the value type is an opaque ghost whose lattice operations are distinct uninterpreted symbols, so 'equal results' means 'this operation, these operands, once'. The first sentence (the iterator returns the exact least solution on finite-height types from any admissible start block) is a statement about wto_iterator::visit and the WTO and is NOT decided.",
+  note=TRUST + "Assumed: unordered_map::find on the thresholds table is a finite-map lookup (model); the table holds an entry for the head when thresholds are on; logging/statistics are effect-free (CrabVerbosity == 0 is a precondition). Not covered: that visit() calls extrapolate with a growing iteration count, the WTO construction, assumption maps, start blocks."),
+ 'C20': dict(
+  text="Proof that every arithmetic / comparison / bitwise / shift / conversion member of ikos::z_number and q_number (lib/bignums.cpp) is the mathematical operation GIVEN GMP's documented behaviour of each __gmpz_*/__gmpq_* entry point it calls (truncating / and %, floor >>, two's-complement bitwise operations on either sign, int64/uint64 conversions in all branches, floor/ceil rounding of rationals, fill_ones with an inductive loop contract), and that crab::safe_i64 (lib/safeint.cpp) returns the exact result whenever it returns and reports overflow exactly when the 128-bit result does not fit; plus (unit lincst, where enabled) constraint negation / tautology / contradiction tests over an abstract valuation.",
+  note=TRUST + "models/gmpmodel.c: GMP entry points modelled with their documented meaning on 2-limb values (|v| < 2^126; products, quotients and rational canonicalisation partly uninterpreted with axioms); magnitudes beyond are assumed to behave alike. Not decided: exact STRING round trips (get_str / string constructors are GMP externals), hash, get_double, linear_constraint_system::normalize. safe_i64 division requires a non-zero divisor."),
  'C19': dict(
   text="Proof for all 64-bit inputs of the patricia bit kernels (highest_bit with an inductive loop contract, mask, zero_bit, match_prefix, compute_branching_bit) and of the routing lemmas that make insert/lookup/merge route consistently and keep joined nodes well formed (incl. the 2^63 corner), and proof of the separate_domain / discrete_domain / patricia_tree_set glue (set, at, forget, <=, ==, join/meet/widening/narrowing bookkeeping, operation objects, membership, subset) over ASSUMED finite-map contracts of the tree algorithms.",
   note=TRUST + "The tree algorithms themselves (insert, remove, merge, compare, transform, iteration over shared_ptr nodes with virtual dispatch) are assumed, not verified: a change inside merge/compare that keeps the kernels intact is not detected. project/rename/iteration are not covered."),
 }
 # properties whose checks currently pass on the unchanged tree and are therefore claimed
-ENABLED = ['C13', 'C19']
+ENABLED = ['C04', 'C05', 'C06', 'C08', 'C13', 'C19', 'C20']
 PENDING = "pending: the contracts exist (see units/) but the check is not yet registered because not every unit of this property has been validated on the unchanged tree"
 NOT_APPLICABLE = {
  'C01': "soundness of the forward analyzer over all CFGs x domains is a whole-history property of fwd_analyzer + abs_transformer + interleaved iterator + WTO acting through unordered_map/shared_ptr/virtual visitors; no function contract within CBMC's reach implies it and bounded runs of that code did not finish (DESIGN 4, A.5)",
